@@ -73,4 +73,11 @@ def checkVdb (args res : List String) : Verdict :=
       | none => .ok s!"refs/vdb/{if ops.any (·.1) then "with-add" else "new-only"}"
   | _, _ => .skip "bad vdb shape"
 
+/-- `refs vlist <ops> => ok | <first disagreement>`: the harness keeps the shadow (present variables, slots) itself -/
+def checkVlist (_args res : List String) : Verdict :=
+  match res with
+  | ["ok"] => .ok "refs/vlist"
+  | [m] => .viol "refs-vlist" s!"variable list disagrees with its history: {m}"
+  | _ => .skip "bad vlist line"
+
 end LP.Driver
